@@ -92,7 +92,18 @@ async fn handle_socks5_connection(
 
     // Step 2: Read connection request
     tracing::debug!("[SOCKS5] Reading connection request");
-    let (dest_addr, _cmd) = read_connection_request(&mut client_conn).await?;
+    let (dest_addr, cmd) = read_connection_request(&mut client_conn).await?;
+
+    // Only CONNECT is supported: BIND / UDP ASSOCIATE / unknown commands must
+    // not be tunnelled as if they were CONNECT.
+    if cmd != CMD_CONNECT {
+        send_connection_reply(&mut client_conn, REPLY_COMMAND_NOT_SUPPORTED, dest_addr.clone())
+            .await?;
+        return Err(AnyTlsError::Protocol(format!(
+            "Unsupported SOCKS5 command: 0x{:02x}",
+            cmd
+        )));
+    }
     tracing::debug!(
         "[SOCKS5] Connection request: {}:{}",
         dest_addr.addr,
